@@ -91,9 +91,13 @@ class CloseGen(H.Gen):
 
 # ---- constructors ---------------------------------------------------------------------------
 
+DTYPES = [numpy.int64, numpy.int64, numpy.uint8, numpy.bool_, numpy.float64, numpy.int8, numpy.uint64]
+
+
 def all_binary_matrices(n):
     for bits in itertools.product([0, 1], repeat=n * n):
-        yield numpy.array(bits).reshape(n, n)
+        # the same binary matrix under different numpy dtypes (signed, unsigned, boolean, float)
+        yield numpy.array(bits).reshape(n, n).astype(DTYPES[(sum(bits) + 3 * bits[1 % len(bits)]) % len(DTYPES)])
 
 
 def matrix_dir_arcs(a, names):
